@@ -413,6 +413,44 @@ def run_mesh(case, seed):
                 tot += np.sum(iw * m.weights[i], axis=1)
             if abs(tot[0] - nb) > 1e-10 * nb or abs(tot[1]) > 1e-12:
                 return fail("cumulative-normalisation", "cumulative weight above the spectrum = %r (bands: %d), below = %r" % (tot[0], nb, tot[1]))
+            # history: the same object set and walked again gives what a fresh object gives (J again, then I on another grid)
+            for val, pts in (("J", np.array([fmax + 1.0, fmin - 1.0])), ("I", np.array([0.5 * (fmin + fmax), fmax + 1.0, 0.3 * fmin + 0.7 * fmax]))):
+                fresh = TetrahedronMesh(ph.primitive, m.frequencies, m.mesh_numbers, np.array(m.grid_address, dtype="int64"), np.array(m.grid_mapping_table, dtype="int64"), m.ir_grid_points)
+                fresh.set(value=val, frequency_points=pts)
+                thm.set(value=val, frequency_points=pts)
+                a = [np.array(iw) for iw in fresh]
+                b = [np.array(iw) for iw in thm]
+                if len(a) != len(b) or any(not np.allclose(x, y, rtol=0, atol=1e-12) for x, y in zip(a, b)):
+                    return fail("reused-object", "a TetrahedronMesh that was already walked once yields %d grid points on the next set(value=%r), a fresh one %d" % (len(b), val, len(a)))
+        if method in ("tetra-py",):
+            # history: run() a second time on the same DOS object (after another set_draw_area) = a fresh object
+            td.set_draw_area(freq_min=lo, freq_max=hi, freq_pitch=pitch)
+            td.run()
+            e = np.abs(np.array(td.dos) - dos).max() / max(dos.max(), 1e-12)
+            if e > 1e-12:
+                return fail("rerun", "mesh_symmetry=%s: TotalDos.run() a second time on the same object changes the DOS by %.3g (rel)" % (ms, e), float(e))
+        if ms:
+            # symmetry-reduced mesh with eigenvectors: the weights of the q-points enter the projected DOS as they enter the total
+            ph.run_mesh(mesh, with_eigenvectors=True, is_mesh_symmetry=True)
+            m2 = ph.mesh
+            # (total DOS of the very same mesh object: eigh and eigvalsh frequencies differ in the last bits, which smearing amplifies)
+            td3 = TotalDos(m2, sigma=sigma, use_tetrahedron_method=tetra)
+            if not tetra:
+                td3.set_smearing_function("Normal" if method == "smear-normal" else "Cauchy")
+            td3._openmp_thm = (method == "tetra-omp")
+            td3.set_draw_area(freq_min=lo, freq_max=hi, freq_pitch=pitch)
+            td3.run()
+            dos3 = np.array(td3.dos)
+            for opt, kw in (("atoms", {}), ("xyz", {"xyz_projection": True})):
+                pd = ProjectedDos(m2, sigma=sigma, use_tetrahedron_method=tetra, **kw)
+                if not tetra:
+                    pd.set_smearing_function("Normal" if method == "smear-normal" else "Cauchy")
+                pd._openmp_thm = (method == "tetra-omp")
+                pd.set_draw_area(freq_min=lo, freq_max=hi, freq_pitch=pitch)
+                pd.run()
+                e = np.abs(np.array(pd.projected_dos).sum(axis=0) - dos3).max() / max(dos3.max(), 1e-12)
+                if e > 1e-9:
+                    return fail("pdos-sum-reduced-mesh/" + opt, "on the symmetry-reduced mesh the projected DOS add up to something that differs from the total DOS by %.3g (rel)" % e, float(e))
     e = np.abs(out[True] - out[False]).max() / max(out[False].max(), 1e-12)
     # (the tetrahedron division singles out one body diagonal and is not invariant under the point group, so equality of
     # reduced and full meshes is only asked of the smearing method, as in the statement of C09)
